@@ -251,9 +251,13 @@ inductive Reach (g : Gram) (k : Kinds) : Nat → Nat → Prop
 /-! ## model construction: the rule-kind dispatch of `process_node` -/
 
 /-- parse tree as `process_node` sees it: children of a root rule's node are
-terminals, nodes of referenced root rules and assignment nodes (flattened) -/
+terminals, nodes of referenced root rules and assignment nodes (flattened).
+A terminal carries the text it matched (`raw`, what `str(node)` gives) and the
+text of the Python value `metamodel.process` turns it into (`val`; the base
+type conversion itself is C04's subject and is data here: `'false'` ↦ `False`,
+`"''"` ↦ the empty string, `'007'` ↦ `7`; for keywords both are the same) -/
 inductive PT
-  | term (text : String) : PT
+  | term (raw : String) (val : String) : PT
   | nt (rule : Nat) (kids : List PT) : PT
   | asgn (attr : String) (kids : List PT) : PT
 deriving Repr
@@ -264,13 +268,26 @@ inductive Val
 deriving Repr
 
 mutual
+/-- `process_match`: the converted values, joined as text (`"".join(str(process_match(n)) …)`;
+a single child keeps its value, whose text is the same string) -/
 def PT.flat : PT → String
-  | .term t => t
+  | .term _ v => v
   | .nt _ ks => flatL ks
   | .asgn _ ks => flatL ks
 def flatL : List PT → String
   | [] => ""
   | x :: xs => x.flat ++ flatL xs
+end
+
+mutual
+/-- the matched text (`"".join(str(n) for n in node)`) -/
+def PT.raw : PT → String
+  | .term t _ => t
+  | .nt _ ks => rawL ks
+  | .asgn _ ks => rawL ks
+def rawL : List PT → String
+  | [] => ""
+  | x :: xs => x.raw ++ rawL xs
 end
 
 def PT.isNT : PT → Bool
@@ -284,7 +301,7 @@ def PT.isNM (k : Kinds) : PT → Bool
 
 mutual
 def proc (k : Kinds) : PT → Val
-  | .term t => .prim t
+  | .term _ v => .prim v
   | .asgn _ _ => .prim ""
   | .nt r kids =>
       match k r with
@@ -302,7 +319,8 @@ def proc (k : Kinds) : PT → Val
               -- only match rules: the first non-terminal child, if any
               match procFirst k PT.isNT kids with
               | some v => v
-              | none => .prim (flatL kids)
+              -- all nodes are simple matches: the matched texts are joined, unconverted
+              | none => .prim (rawL kids)
       | .mtch => .prim (flatL kids)
       | .common => .obj r (procAttrs k kids)
 /-- result of the first child satisfying `p` -/
@@ -399,7 +417,7 @@ non-terminal child whatever its rule kind (`… is not RULE_MATCH` was always tr
 def procAbsPinned (k : Kinds) (kids : List PT) : Val :=
   match procFirst k PT.isNT kids with
   | some v => v
-  | none => .prim (flatL kids)
+  | none => .prim (rawL kids)
 
 /-- pinned state: the inheritance lists are filled while the kinds are still moving -/
 structure StP where
